@@ -138,6 +138,15 @@ func ruleTimeParams(r *Run) {
 			runE = qc.AnonFuncs[0]
 		}
 	}
+	// the default step may be computed in parseStep itself (helper inlined)
+	defStart, defEnd := 0, 1
+	if dst == nil && pst != nil && len(pst.Params) == 3 {
+		for _, c := range callsIn(pst) {
+			if callIs(c, "math", "Floor") {
+				dst, defStart, defEnd = pst, 1, 2
+			}
+		}
+	}
 	if ptr == nil || pts == nil || pst == nil || pdu == nil || dst == nil || qc == nil || runE == nil {
 		anchor.Fail("-", "parseTimeRange/parseTimestamp/parseStep/parseDuration/defaultStep/queryCmd not all found")
 		return
@@ -227,6 +236,12 @@ func ruleTimeParams(r *Run) {
 			if c, ok := v.(*ssa.Call); ok && callIs(c, cm, "defaultStep") {
 				continue
 			}
+			if dst == pst {
+				// inlined default: anything that is not the parsed duration
+				if c, idx, ok := extractOf(stripConv(v)); !ok || idx != 0 || !callIs(c, cm, "parseDuration") {
+					continue
+				}
+			}
 			// must be guarded: a taken fact v <= 0 == false (or v > 0 == true)
 			guarded := false
 			for _, f := range e.State.free {
@@ -260,7 +275,18 @@ func ruleTimeParams(r *Run) {
 			nRet, nOK := 0, 0
 			for _, gf := range []*ssa.Function{dst} {
 				for _, ret := range returnsOf(gf) {
-					if len(ret.Results) != 1 {
+					if dst == pst {
+						// inlined default: only the returns that hand out the computed default
+						if len(ret.Results) != 2 || !isNilConst(ret.Results[1]) {
+							continue
+						}
+						if c, idx, ok := extractOf(stripConv(ret.Results[0])); ok && idx == 0 && callIs(c, cm, "parseDuration") {
+							continue
+						}
+						if _, isC := constOf(ret.Results[0]); isC {
+							continue
+						}
+					} else if len(ret.Results) != 1 {
 						continue
 					}
 					nRet++
@@ -438,7 +464,7 @@ func ruleTimeParams(r *Run) {
 		for _, c := range callsIn(dst) {
 			if callIs(c, "time", "(Time).Sub") {
 				// defaultStep(start, end): the second parameter minus the first
-				if len(dst.Params) != 2 || unspill(c.Common().Args[0]) != ssa.Value(dst.Params[1]) || unspill(c.Common().Args[1]) != ssa.Value(dst.Params[0]) {
+				if len(dst.Params) <= defEnd || unspill(c.Common().Args[0]) != ssa.Value(dst.Params[defEnd]) || unspill(c.Common().Args[1]) != ssa.Value(dst.Params[defStart]) {
 					bad = true
 					oc.Fail(r.pos(c.Pos()), "defaultStep measures %s.Sub(%s), expected end.Sub(start)", rootName(c.Common().Args[0]), rootName(c.Common().Args[1]))
 				}
@@ -1122,14 +1148,27 @@ func ruleDefaultOnlyWhenAbsent(r *Run) {
 	pst := p.Func(cmdPkg, "parseStep")
 	dst := p.Func(cmdPkg, "defaultStep")
 	o := r.Ob("PV-OKGATE", "main.parseStep default", "the default step is used iff --step was not given; a given but empty or malformed value is rejected, not replaced")
-	if pst == nil || dst == nil {
+	inlined := false
+	if pst != nil && dst == nil {
+		for _, c := range callsIn(pst) {
+			if callIs(c, "math", "Floor") {
+				inlined = true
+			}
+		}
+	}
+	if pst == nil || (dst == nil && !inlined) {
 		o.Fail("-", "parseStep/defaultStep not found")
 		return
 	}
 	n, bad := 0, false
 	for _, gf := range funcGroup(pst) {
 		for _, c := range callsIn(gf) {
-			if staticCallee(c) != dst {
+			if inlined {
+				// the default computation itself: its range measurement
+				if !callIs(c, "time", "(Time).Sub") {
+					continue
+				}
+			} else if staticCallee(c) != dst {
 				continue
 			}
 			n++
